@@ -642,6 +642,10 @@ impl<'a> VariableParserExtension<'a> {
         type_params: &IndexMap<String, Option<TypeId>>,
     ) -> Result<HashMapVariable, ParsingError> {
         let height = val.assume_field_as_scalar_number("height")?;
+        // height is read from debugee memory, a real tree with 64 levels can't exist
+        if !(0..=64).contains(&height) {
+            return Err(AssumeError::IncompleteInterp("BTreeMap (height)").into());
+        }
         let ptr = val.assume_field_as_pointer("pointer")?;
 
         let k_type = type_params
@@ -664,6 +668,7 @@ impl<'a> VariableParserExtension<'a> {
         let iterator = reflection.iter(pcx.evcx)?;
         let kv_items = iterator
             .map_err(ParsingError::from)
+            .take(LEN_GUARD as usize)
             .filter_map(|(k, v)| {
                 let Some(key) = self.parser.parse_inner(pcx, Some(k), k_type) else {
                     return Ok(None);
